@@ -30,7 +30,7 @@ from ..callgraph import DIRECT
 from ..flow import Flow, Out
 from ..prog import _assigned_names
 from ..report import Report
-from ..util import where, mwhere, norm, call_name
+from ..util import where, mwhere, norm
 from ..variants import V
 
 PID = 'C11'
@@ -79,7 +79,7 @@ def _const(e, *vals):
     return isinstance(e, ast.Constant) and any(e.value == v and type(e.value) is type(v) for v in vals)
 
 
-def _bind(call, params, defaults=None):
+def _bind(call, params):
     """positional/keyword arguments of a call bound to a parameter list -> {param: expr} or None when it cannot bind"""
     if any(isinstance(a, ast.Starred) for a in call.args) or any(k.arg is None for k in call.keywords):
         return None
@@ -1720,17 +1720,23 @@ def _rule3(model, rep):
             r.extra['gate_states_visited'] = fl.visited
             live = list(sts)
             bad = [st for st in live if not (fget(st, 'active') is True and not fget(st, 'fired'))]
-            if bad:
-                fired = sorted({fget(st, 'fired') for st in bad if fget(st, 'fired')})
-                msg = (
-                    f'{norm(h.call)[:70]} is reachable after {"/".join(fired)}() was fired in the same pass with a task queue that is not known '
-                    'to be empty: a task is written to a worker while the pipeline is leaving the running state'
-                    if fired
-                    else f'{norm(h.call)[:70]} is reachable on a path on which is_pipeline_active() was not tested true '
-                    '(the activity predicate of the dispatcher does not dominate it)'
+            ungated = [st for st in bad if not fget(st, 'fired')]
+            fired = sorted({fget(st, 'fired') for st in bad if fget(st, 'fired')})
+            if ungated:
+                r.fail(
+                    h.key() + ':active',
+                    where(h.func, h.call),
+                    f'{norm(h.call)[:70]} is reachable on a path on which is_pipeline_active() was not tested true '
+                    '(the activity predicate of the dispatcher does not dominate it)',
                 )
-                r.fail(h.key() + ':active', where(h.func, h.call), msg)
-            else:
+            for trig in fired:
+                r.fail(
+                    h.key() + ':after-' + trig,
+                    where(h.func, h.call),
+                    f'{norm(h.call)[:70]} is reachable after {trig}() was fired in the same pass with a task queue that is not known '
+                    'to be empty: a task is written to a worker while the pipeline is leaving the running state',
+                )
+            if not bad and sts:
                 r.ok(
                     h.key() + ':active',
                     f'{len(live)} abstract state(s) at the hand-over, all with is_pipeline_active() tested true and no trigger fired since',
